@@ -394,6 +394,10 @@ func (bwu *BaseWorkUnit) UpdateFullStatus(statusFunc func(*StatusFileData)) {
 // Passing -1 as stdoutSize leaves it unchanged.
 func (sfd *StatusFileData) UpdateBasicStatus(filename string, state int, detail string, stdoutSize int64) error {
 	return sfd.UpdateFullStatus(filename, func(status *StatusFileData) {
+		if state == WorkStateCanceled && status.State == WorkStateSucceeded {
+			// the unit completed while it was being cancelled: a succeeded unit stays succeeded
+			return
+		}
 		status.State = state
 		status.Detail = detail
 		if stdoutSize >= 0 {
